@@ -4,8 +4,35 @@ Enumerated (completely, no sampling): every code object of every PS-full program
 up to the tier's depth (vk/psfull.py) and of every CPython 3.12 stdlib source
 file of the tier's corpus.  Each source goes through the real pipeline
 pyc.compile_src -> blocks.process_code (no VM) and every OrderedCode in the
-result is checked by an independent re-computation (clauses a..h below) from the
-opcode stream and from CPython's own `dis` of the same code object.
+result is checked by an independent re-computation from the opcode stream
+(index/next/prev/target/block_target and the class flags does_jump, no_next,
+has_known_jump - never the splitter's own tables) and from CPython's own `dis`
+of the same code object:
+
+  (a) blocks of `order` are non-empty, hold stream instructions, no instruction twice
+  (b) only a block's last instruction jumps or ends the flow; no instruction but
+      the first is anybody's `target`; a block is a consecutive run of the stream
+  (c) a jumping last instruction's target, a falling-through last instruction's
+      successor and a last instruction's block_target each start a block of
+      `order` that is in the block's `outgoing`
+  (d) every has_known_jump instruction (and every instruction CPython's dis lists
+      as a jump) has a target, inside the stream
+  (e) prev/next links give one stream with ops[i].index == i, links mutually consistent
+  (f) order[0] holds the first instruction; order == blocks reachable over
+      `outgoing`, no duplicates; each later block has an `incoming` predecessor
+      earlier in the order; incoming mirrors outgoing
+  (g) every instruction reachable over {fall-through, jump target, block_target}
+      is in some block of `order`
+  (h) the stream minus pytype's pseudo-ops is CPython's instruction stream, and
+      every jump's target is the instruction at the offset dis reports
+  (x) the pipeline returns (no exception, no hang) on every compilable source
+
+Scoping (DESIGN C16): a SETUP_EXCEPT_311 target is not a jump for (c)/(g); code
+objects containing SEND/END_ASYNC_FOR are exempt from "consecutive" in (b) and
+from (g), and three documented artefacts of that surgery are tolerated in them.
+
+Violations are grouped by signature (clause + message without numbers); each
+signature is one finding, witnessed by the smallest input that shows it.
 """
 
 import dis
